@@ -2,6 +2,7 @@ import EgVerif.Proofs.Topic
 import EgVerif.Gen.FactsC14
 import EgVerif.Proofs.TopicIR
 import EgVerif.Proofs.TopicRemoveIR
+import EgVerif.Proofs.TopicJudge
 /-!
 # C14 — MQTT topic routing equals MQTT 3.1.1 filter matching over any subscribe history
 
@@ -356,5 +357,41 @@ example :
     Gen.FactsC14IR.findIR t "a/b".toList = some [("c1", 1), ("c2", 1), ("c1", 0)] ∧
     Gen.FactsC14IR.findIR t "x/y/z".toList = some [] ∧
     Gen.FactsC14IR.findIR t "a/#/b".toList = none := by decide
+
+/-! ### Extension mqtt round 2 (audit P2 item 17): judge spec connected, SUBSCRIBE acknowledgement, cursor validity -/
+
+/-- **The judge's executable spec accepts the model** (every history, every topic) … -/
+theorem routedOK_accepts_model (ops : List Op) (lv : List Level) :
+    routedOK (specRun [] ops) lv (collapseMax (find (run State.init ops).trie lv)) = true :=
+  Topic.routedOK_accepts_model ops lv
+
+/-- … **and is sound**: an observed `findSubscribers` result that passes `routedOK` contains only pairs justified
+by a matching live subscription of that client with that QoS, and misses no client holding one. -/
+theorem routedOK_sound (s : Subs) (lv : List Level) (obs : List (Client × QoS)) (h : routedOK s lv obs = true) :
+    (∀ p ∈ obs, ∃ f, (f, p.1, p.2) ∈ s ∧ «matches» f lv = true) ∧
+    (∀ f c q, (f, c, q) ∈ s → «matches» f lv = true → ∃ o ∈ obs, o.1 = c) :=
+  Topic.routedOK_sound s lv obs h
+
+/-- **A SUBSCRIBE is refused iff some filter of the packet is malformed**; a well-formed one is acknowledged. -/
+theorem subscribe_error_iff_malformed (s : State) (c : Client) (fs : List (List Char × QoS)) :
+    ((step s (.subscribe c fs)).2 = true ↔ ∃ p ∈ fs, wellFormed p.1 = false) ∧
+    ((∀ p ∈ fs, wellFormed p.1 = true) → (step s (.subscribe c fs)).2 = false) :=
+  ⟨Topic.subscribe_error_iff_malformed s c fs, Topic.wellformed_subscribe_accepted s c fs⟩
+
+/-- **Cursor validity is an invariant of the translated `insert` / `remove`**: the totalising branches of the
+path-cursor operations (`ptrUpd` on a path that leaves the trie, `nodeAt` reading `Trie.empty`) are never taken —
+`insert`'s cursor stays a valid path (the loop never returns early), and after `remove`'s walk down succeeded the
+path of `delete(node.clients, c)` and every path the pruning loop reads or unlinks through is valid. -/
+theorem cursors_stay_valid (t : Trie) (topic : List Char) (q : QoS) (c : Client) (ls : List Level) :
+    (match Gen.FactsC14IR.insertIR_loop1 t topic q c t ls false ⟨[], false⟩ ⟨[], false⟩ false ls with
+     | .inl _ => False
+     | .inr (root', node', _, _) => (ptrSub node'.path root').isSome = true) ∧
+    ((ptrSub ls t).isSome = true → Topic.prValid ls 0 ls.length (delClientPtr t ⟨ls, false⟩ c)) :=
+  ⟨Topic.insert_cursor_valid t topic q c ls false ls t [] false ⟨[], false⟩ false t rfl,
+   Topic.remove_cursors_valid ls t c⟩
+
+example : routedOK [(["a".toList], "c1", 1)] ["a".toList] [("c1", 1)] = true ∧
+    routedOK [(["a".toList], "c1", 1)] ["a".toList] [("c1", 0)] = false ∧
+    routedOK [(["a".toList], "c1", 1)] ["a".toList] [] = false := by decide
 
 end EgVerif.C14
